@@ -58,6 +58,8 @@ type Verifier struct {
 	siteCount    map[string]int
 	negRefs      int
 	caseTag      string
+	assumingEnsures int
+	curClause    string
 	typeCodes    map[string]int
 	nonNegSeen   map[int]bool
 	assumed      map[string]bool
@@ -716,8 +718,10 @@ func (v *Verifier) execLoop(fr *Frame, st *State, node ast.Node, pos token.Pos, 
 	}
 	c := v.eng.C
 	base := st.fork()
-	fr.scopeAt = bodyPos(body, pos)
-	defer func() { fr.scopeAt = token.NoPos }()
+	outerScope := fr.scopeAt
+	loopScope := bodyPos(body, pos)
+	fr.scopeAt = loopScope
+	defer func() { fr.scopeAt = outerScope }()
 	// 1. entry
 	for _, cl := range invs {
 		t := v.asBool(v.evalSpec(fr, st, cl.Expr), pos)
@@ -794,6 +798,7 @@ func (v *Verifier) execLoop(fr *Frame, st *State, node ast.Node, pos token.Pos, 
 		h.heaps[k] = c.Fresh(fmt.Sprintf("H@L%d$%s", ord, k), old.Sort)
 	}
 	// 4. assume invariants; the function's heap frame is an implicit invariant of every loop
+	fr.scopeAt = loopScope
 	for _, cl := range invs {
 		h.assume(v.asBool(v.evalSpec(fr, h, cl.Expr), pos))
 	}
@@ -826,7 +831,7 @@ func (v *Verifier) execLoop(fr *Frame, st *State, node ast.Node, pos token.Pos, 
 					if p.ctl != CtlNormal {
 						continue
 					}
-					fr.scopeAt = bodyPos(body, pos)
+					fr.scopeAt = loopScope
 					for _, cl := range invs {
 						t := v.asBool(v.evalSpec(fr, p, cl.Expr), pos)
 						v.obligeNamed(fr, p, fmt.Sprintf("loop%d.inv%d.preserve", ord, cl.Ord), pos, t, "loop invariant preserved: "+cl.Text)
